@@ -299,6 +299,10 @@ class FloatLiteral(Literal[float]):
         super().__init__(token, value)
 
     def __str__(self) -> str:
+        if self.value in (float("inf"), float("-inf")):
+            # A float literal too big for a double is infinity. `inf` would be
+            # read as a variable name and `-inf` is not Liquid at all.
+            return "1.0e999" if self.value > 0 else "-1.0e999"
         mantissa, e, exponent = repr(self.value).partition("e")
         if e and "." not in mantissa:
             # `1e+16` would be read as an integer literal.
